@@ -13,7 +13,7 @@ import (
 
 func init() {
 	register(&Rule{Name: "pipe.stages", Floor: 100,
-		Doc: "for each fork's ProcessBlock and ProcessEpoch, every path to a success return passes through exactly the spec's sub-transitions for that fork, in that fork's variant (resolved callee), with no foreign stage; stages that do not commute in this code base run in the spec's order (dependency table in DESIGN.md §9)",
+		Doc: "for each fork's ProcessBlock and ProcessEpoch, every path to a success return passes through exactly the spec's sub-transitions for that fork, in that fork's variant (resolved callee), with no foreign stage; stages that do not commute in this code base run in the spec's order (dependency table in DESIGN.md §9). A stage called from an unexported helper counts at the helper's call site, on every path only if the helper runs it on every one of its own success paths",
 		Run: rulePipeStages})
 	register(&Rule{Name: "slots.order", Floor: 8,
 		Doc: "ProcessSlots: ProcessSlot, then ProcessEpoch iff at an epoch end, then SetSlot, then RotateEpochs iff at an epoch end, then UpgradeMaybe, each cutting every path to the next iteration; the target-slot guard precedes the loop; PostSlotTransition: signature check before ProcessBlock (under validateResult) and state-root comparison after it with != leading to an error",
@@ -22,7 +22,7 @@ func init() {
 		Doc: "VerifyAndNotifyNewPayload maps every engine answer (err => (false, err), !ok => (false, nil)) in the order block hash, versioned hashes, notify; ProcessExecutionPayload stores the payload header only after the engine verdict `valid` and returns an error for err and for !valid; the request carries the block's payload, the versioned hashes of its commitments in order and the parent root of the latest block header",
 		Run: ruleEngineVerdict})
 	register(&Rule{Name: "limits.first", Floor: 30,
-		Doc: "each fork's CheckLimits bounds every list-typed body field by that field's own SSZ limit (the limit its Deserialize enforces), with the spec-mandated exception for blob commitments, and ProcessBlock calls it before the first operation stage",
+		Doc: "each fork's CheckLimits bounds every list-typed body field by that field's own SSZ limit (the limit its Deserialize enforces), with the spec-mandated exception for blob commitments, and ProcessBlock calls it before the first operation stage; the (count, limit) pairs are collected from direct comparisons, from calls of an unexported check(what, count, limit) helper and from the rows of a local table walked by a loop",
 		Run: ruleLimitsFirst})
 	register(&Rule{Name: "merkle.bound", Floor: 3,
 		Doc: "every VerifyMerkleBranch call passes the full slice of an array at least `depth` long with a constant depth, its false result returns an error, and in ProcessDeposit it precedes IncrementDepositIndex",
